@@ -11,6 +11,7 @@ import (
 )
 
 type Clause struct {
+	Applied, Skipped int // step clauses: back edges at which the clause could / could not be evaluated
 	Kind  string // requires ensures invariant decreases assert modifies
 	Label string
 	Text  string
@@ -38,6 +39,10 @@ type LoopContract struct {
 	Ordinal    int
 	Hint       string
 	MustCalls  []*MustCall
+	// Steps: `step [label:] expr` — a transition clause: an obligation at every back edge of the loop, over the
+	// variables as they are at the end of the iteration; atiter(k, e) and iter(x) give access to the state and the
+	// loop-carried variables at the header in the same iteration. Not assumed anywhere (a per-iteration postcondition).
+	Steps      []*Clause
 	Invariants []*Clause
 	Decreases  *Clause
 	Unroll     int // >0: unroll this loop fully N times with unwinding assertion
@@ -121,7 +126,7 @@ type ContractFile struct {
 	NClauses int
 }
 
-var keywordRe = regexp.MustCompile(`^(func|extern|spec|pred|lemma|axiom|requires|ensures|invariant|mustcall|decreases|loop|modifies|assert|trusted|vars|assume|call|exec|conclude|uses|use|let|callsite|order|elems|recv|wf|less|key)\b`)
+var keywordRe = regexp.MustCompile(`^(func|extern|spec|pred|lemma|axiom|requires|ensures|invariant|step|mustcall|decreases|loop|modifies|assert|trusted|vars|assume|call|exec|conclude|uses|use|let|callsite|order|elems|recv|wf|less|key)\b`)
 var labelRe = regexp.MustCompile(`^([A-Za-z_][A-Za-z0-9_.]*):([^:].*)$`)
 
 func ParseContractFile(path, pkg string) (*ContractFile, error) {
@@ -381,7 +386,7 @@ func ParseContractFile(path, pkg string) (*ContractFile, error) {
 			}
 			curLoop.MustCalls = append(curLoop.MustCalls, &MustCall{Callee: f[0], Label: ac.Label, ArgCond: ac.E, When: wc.E, Text: strings.TrimSpace(f[1]), Line: it.line})
 			cf.NClauses++
-		case "invariant", "decreases":
+		case "invariant", "decreases", "step":
 			if curLoop == nil {
 				return nil, fmt.Errorf("%s:%d: %s outside loop", path, it.line, kw)
 			}
@@ -391,6 +396,8 @@ func ParseContractFile(path, pkg string) (*ContractFile, error) {
 			}
 			if kw == "invariant" {
 				curLoop.Invariants = append(curLoop.Invariants, c)
+			} else if kw == "step" {
+				curLoop.Steps = append(curLoop.Steps, c)
 			} else {
 				curLoop.Decreases = c
 			}
